@@ -749,6 +749,7 @@ func ruleC15(c *Ctx, r *Report) {
 		r.Check(usesHash, "C15-R5", planFn.Name()+":uses-HashName", c.Pos(planFn.Pos()), "index key names are replaced by HashName pseudonyms (same function as the filter keys)", "the plan-summary rewrite does not use the shared pseudonym function: names no longer line up with the filter")
 		r.Check(len(selfRewrite) == 0, "C15-R5", planFn.Name()+":single-pass", c.Pos(planFn.Pos()), "no substring replacement is applied to its own previous output", fmt.Sprintf("strings.Replace* over its own previous result at %v: later names are replaced inside earlier pseudonyms / the prefix / 'IXSCAN'", selfRewrite))
 		planSummaryTokenizerRule(c, r, planFn)
+		pseudonymVerbatimRule(c, r, hn, "C15-R5")
 	}
 }
 
